@@ -219,7 +219,7 @@ package fsnotify
 //@   ensures modeA && live && ok && mask & (unix.IN_IGNORED | unix.IN_UNMOUNT) == 0 && mask & unix.IN_DELETE_SELF != 0 && ev.Op == 0 ==>
 //@             kparentWatched(wd)                                                                         [C01 C09] "a suppressed IN_DELETE_SELF is one the watched parent directory reports"
 //@   ensures modeA && live && mask & gone == 0 ==> atUnlock(w.watches.wd) == W1 && atUnlock(w.watches.path) == P1     [C09 C04] "other notifications (e.g. the IN_ATTRIB of an unlink with an open descriptor) keep the watch"
-//@   ensures modeA && live && mask & gone != 0 ==> atUnlock(w.watches.wd) == del(W1, wd) && atUnlock(w.watches.path) == del(P1, wpath)   [C09 C12 C04] "a watch whose path is deleted or renamed leaves both tables"
+//@   ensures modeA && live && mask & gone != 0 ==> atUnlock(w.watches.wd) == del(W1, wd) && atUnlock(w.watches.path) == del(P1, wpath)   [C09 C12 C04 C02] "a watch whose path is deleted or renamed leaves both tables"
 //@   ensures modeA && live && mask & gone != 0 ==> !has(K, wd) || closed(w.done)                          [C09 C12] "and its kernel watch is gone"
 //@   ensures hist(w.Errors) == old(hist(w.Errors)) || closed(w.done)                                      [C10] "handling a notification puts nothing on Errors"
 //@   ensures hist(w.Events) == old(hist(w.Events))                                                        [C03] "handleEvent itself sends no event"
